@@ -6,13 +6,9 @@ From VFS Require Import Core.Types Core.Prog Core.Calls Base.MemFS Proofs.ProgPr
 
 Notation mstate := (gmap path memfile).
 
-(** what the caller must have established for a call to keep the tree well formed:
-    MemoryFS itself only checks that the parent *exists* ([ensure_has_parent]);
-    that it is a directory is checked by [VfsPath::get_parent] (or by the loop
-    invariant of [create_dir_all]) *)
+(** the only thing a call must not do to keep the tree well formed is remove the root *)
 Definition call_guard (c : fscall) (s : mstate) : Prop :=
   match c with
-  | CCreateDir p | CCreateFile p => forall d, s !! removelast p = Some d -> f_type d = Dir
   | CRemoveDir p => p <> []
   | _ => True
   end.
@@ -41,31 +37,12 @@ Proof. exact (ms_single (MExists p) s). Qed.
 Lemma ms_remove_file (p : path) (s : mstate) : mem_step (CRemoveFile p) s = msec_sem (MRemoveFile p) s.
 Proof. exact (ms_single (MRemoveFile p) s). Qed.
 
-Lemma ms_create_dir (p : path) (s : mstate) :
-  mem_step (CCreateDir p) s =
-  match p with
-  | [] => (s, fail EOther)
-  | _ => if bool_decide (is_Some (s !! removelast p)) then msec_sem (MInsertDir p) s else (s, fail EOther)
-  end.
-Proof.
-  unfold mem_step. destruct p as [|x p']; [reflexivity|].
-  cbn [mem_call mem_ensure_has_parent bind msec_call run]. unfold msec_handler at 1. cbn [msec_sem].
-  case_bool_decide; cbn [run bind]; [|reflexivity].
-  exact (ms_single (MInsertDir (x :: p')) s).
-Qed.
-
-Lemma ms_create_file (p : path) (s : mstate) :
-  mem_step (CCreateFile p) s =
-  match p with
-  | [] => (s, fail EOther)
-  | _ => if bool_decide (is_Some (s !! removelast p)) then msec_sem (MInsertFile p) s else (s, fail EOther)
-  end.
-Proof.
-  unfold mem_step. destruct p as [|x p']; [reflexivity|].
-  cbn [mem_call mem_ensure_has_parent bind msec_call run]. unfold msec_handler at 1. cbn [msec_sem].
-  case_bool_decide; cbn [run bind]; [|reflexivity].
-  exact (ms_single (MInsertFile (x :: p')) s).
-Qed.
+Lemma ms_create_dir (p : path) (s : mstate) : mem_step (CCreateDir p) s = msec_sem (MInsertDir p) s.
+Proof. exact (ms_single (MInsertDir p) s). Qed.
+Lemma ms_create_file (p : path) (s : mstate) : mem_step (CCreateFile p) s = msec_sem (MInsertFile p) s.
+Proof. exact (ms_single (MInsertFile p) s). Qed.
+Lemma ms_remove_dir (p : path) (s : mstate) : mem_step (CRemoveDir p) s = msec_sem (MRemove p) s.
+Proof. exact (ms_single (MRemove p) s). Qed.
 
 Lemma ms_open_file (p : path) (s : mstate) :
   mem_step (COpenFile p) s =
@@ -80,27 +57,6 @@ Proof.
   exact (ms_single (MGetReader p) s1).
 Qed.
 
-Lemma scan_state (s : mstate) (p : path) : fst (msec_sem (MScan p) s) = s.
-Proof. cbn. repeat (dm; cbn [fst]); reflexivity. Qed.
-
-Lemma scan_nil (s : mstate) (p : path) : snd (msec_sem (MScan p) s) = Ok [] -> forall n, s !! (p ++ [n]) = None.
-Proof. cbn. repeat (dm; cbn [snd]); try discriminate. intros [= H]. now apply mem_children_nil. Qed.
-
-Lemma ms_remove_dir (p : path) (s : mstate) :
-  mem_step (CRemoveDir p) s =
-  match snd (msec_sem (MScan p) s) with
-  | Ok [] => msec_sem (MRemove p) s
-  | Ok (_ :: _) => (s, fail EOther)
-  | Err e => (s, Err e)
-  | Panic => (s, Panic)
-  end.
-Proof.
-  unfold mem_step. cbn [mem_call bind msec_call run]. unfold msec_handler at 1.
-  pose proof (scan_state s p) as Hs.
-  destruct (msec_sem (MScan p) s) as [s1 [[|n l]|e|]]; cbn [fst snd run] in *; subst s1; try reflexivity.
-  exact (ms_single (MRemove p) s).
-Qed.
-
 Lemma ms_unsupported (c : fscall) (s : mstate) :
   match c with CCopyFile _ _ | CMoveFile _ _ | CMoveDir _ _ => True | _ => False end ->
   fst (mem_step c s) = s.
@@ -113,22 +69,11 @@ Proof.
     rewrite ?ms_read_dir, ?ms_append_file, ?ms_metadata, ?ms_set_ctime, ?ms_set_mtime, ?ms_set_atime,
       ?ms_exists, ?ms_remove_file, ?ms_create_dir, ?ms_create_file, ?ms_open_file, ?ms_remove_dir;
     try (match goal with |- wf (fst (msec_sem ?c ?s0)) => apply (msec_wf c s0 Hwf); exact I end); try exact Hwf.
-  - (* create_dir *)
-    destruct p as [|x p']; [exact Hwf|]. set (p := x :: p') in *.
-    case_bool_decide as E; [|exact Hwf]. destruct E as [d E].
-    apply (msec_wf (MInsertDir p) s Hwf). right. exists d. auto.
   - (* open_file *)
     pose proof (msec_wf (MSetA p TAuto) s Hwf I) as H1.
     destruct (msec_sem (MSetA p TAuto) s) as [s1 [u|e|]]; cbn [fst snd] in *; try exact H1.
     apply (msec_wf (MGetReader p) s1 H1 I).
-  - (* create_file *)
-    destruct p as [|x p']; [exact Hwf|]. set (p := x :: p') in *.
-    case_bool_decide as E; [|exact Hwf]. destruct E as [d E].
-    apply (msec_wf (MInsertFile p) s Hwf). right. exists d. auto.
-  - (* remove_dir *)
-    pose proof (scan_nil s p) as Hnil.
-    destruct (snd (msec_sem (MScan p) s)) as [[|n l]|e|]; try exact Hwf.
-    apply (msec_wf (MRemove p) s Hwf). split; [exact Hg|]. now apply Hnil.
+  - exact (msec_wf (MRemove p) s Hwf Hg).
 Qed.
 
 (** ** frame: a call changes only the entries it names *)
@@ -152,15 +97,9 @@ Proof.
     rewrite ?ms_read_dir, ?ms_append_file, ?ms_metadata, ?ms_set_ctime, ?ms_set_mtime, ?ms_set_atime,
       ?ms_exists, ?ms_remove_file, ?ms_create_dir, ?ms_create_file, ?ms_open_file, ?ms_remove_dir;
     try (match goal with |- fst (msec_sem ?c ?s0) !! _ = _ => apply (msec_frame c s0); cbn; set_solver end); try reflexivity.
-  - destruct p as [|x p']; [reflexivity|]. set (p := x :: p') in *.
-    case_bool_decide; [|reflexivity]. apply (msec_frame (MInsertDir p)). set_solver.
-  - pose proof (msec_frame (MSetA p TAuto) s q ltac:(set_solver)) as H1.
-    destruct (msec_sem (MSetA p TAuto) s) as [s1 [u|e|]]; cbn [fst snd] in *; try exact H1.
-    rewrite (msec_frame (MGetReader p)) by set_solver. exact H1.
-  - destruct p as [|x p']; [reflexivity|]. set (p := x :: p') in *.
-    case_bool_decide; [|reflexivity]. apply (msec_frame (MInsertFile p)). set_solver.
-  - destruct (snd (msec_sem (MScan p) s)) as [[|n l]|e|]; try reflexivity.
-    apply (msec_frame (MRemove p)). set_solver.
+  pose proof (msec_frame (MSetA p TAuto) s q ltac:(set_solver)) as H1.
+  destruct (msec_sem (MSetA p TAuto) s) as [s1 [u|e|]]; cbn [fst snd] in *; try exact H1.
+  rewrite (msec_frame (MGetReader p)) by set_solver. exact H1.
 Qed.
 
 (** ** timestamps (C19): setting one field changes that field of that entry only *)
@@ -234,14 +173,7 @@ Proof.
     rewrite ?ms_read_dir, ?ms_append_file, ?ms_metadata, ?ms_set_ctime, ?ms_set_mtime, ?ms_set_atime,
       ?ms_exists, ?ms_remove_file, ?ms_create_dir, ?ms_create_file, ?ms_open_file, ?ms_remove_dir;
     try (match goal with |- snd (msec_sem ?c ?s0) <> _ => apply (msec_no_panic c s0) end); try (unfold fail; cbn; discriminate).
-  - destruct p as [|x p']; [unfold fail; cbn; discriminate|].
-    case_bool_decide; [apply (msec_no_panic (MInsertDir _))|unfold fail; cbn; discriminate].
-  - pose proof (msec_no_panic (MSetA p TAuto) s) as H1.
-    destruct (msec_sem (MSetA p TAuto) s) as [s1 [u|e|]]; cbn [fst snd] in *; try discriminate; try congruence.
-    apply (msec_no_panic (MGetReader p)).
-  - destruct p as [|x p']; [unfold fail; cbn; discriminate|].
-    case_bool_decide; [apply (msec_no_panic (MInsertFile _))|unfold fail; cbn; discriminate].
-  - pose proof (msec_no_panic (MScan p) s) as H1.
-    destruct (snd (msec_sem (MScan p) s)) as [[|n l]|e|]; cbn [snd]; try discriminate; try congruence.
-    apply (msec_no_panic (MRemove p)).
+  pose proof (msec_no_panic (MSetA p TAuto) s) as H1.
+  destruct (msec_sem (MSetA p TAuto) s) as [s1 [u|e|]]; cbn [fst snd] in *; try discriminate; try congruence.
+  apply (msec_no_panic (MGetReader p)).
 Qed.
